@@ -19,7 +19,9 @@ RULE = ('Hypothesis draws a journal: block size 1k/2k/4k, tag format 32/64-bit, 
         'needs_recovery clear, and all front-ends byte-identical on the pool. For checksum damage inside a transaction (descriptor/data/revoke block) jbd2 reports an error; there the oracle is: no pool block may hold anything but its original or a logged image, and never the damaged image. '
         'non-trivial = at least one accepted transaction and one of {revoke hit, escape, wrap crossed, repeated block, damage}; distinct by journal structure') % sorted(set(jbd2.DAMAGE))
 
-tr = st.fixed_dictionaries(dict(blocks=st.lists(st.tuples(st.integers(0, 199), st.integers(0, 9).map(lambda x: x == 0)), min_size=1, max_size=40), rev_before=st.lists(st.integers(0, 199), max_size=4), rev_after=st.lists(st.integers(0, 199), max_size=4),
+# pool indexes: half of the draws come from a 12-block corner of the pool so that the same block is logged / revoked / logged again across transactions
+pidx = st.one_of(st.integers(0, 11), st.integers(0, 199))
+tr = st.fixed_dictionaries(dict(blocks=st.lists(st.tuples(pidx, st.integers(0, 9).map(lambda x: x == 0)), min_size=1, max_size=40), rev_before=st.lists(pidx, max_size=4), rev_after=st.lists(pidx, max_size=4),
                                 split=st.sampled_from([0, 0, 1, 3, 7]), same_uuid=st.booleans()))
 def strategy(env):
     return st.fixed_dictionaries(dict(fs=st.integers(0, len(FSCFG) - 1), fmt64=st.booleans(), csum=st.sampled_from([0, 1, 2, 3, 3]), **{'async': st.booleans()}, seq0=st.sampled_from([1, 2, 77, 1000, 0x7fffffff, 0xfffffffd, 0xffffffff, 0xfffffff0]),
